@@ -2,8 +2,10 @@
 
 Protocol (one op per line, all numbers non-negative decimal integers; see lean/Operon/Drv/C04.lean):
   new budget gtp nadh maxDebt rateNum rateDen | consume id cost cur allowDebt prio | regen id n cur |
-  transfer src dst n cur | convert id n | dorm id | wake id | interest id | rst id
-Observation: `<ret> | <store>[ | <store>]`, <store> = atp gtp nadh debt consumed regenerated ops failed ntx state.
+  transfer src dst n cur | convert id n | dorm id | wake id | interest id | rst id |
+  obs id none | obs id nth k exc | obs id state <name> exc | obs id always exc   (scripted on_state_change observer)
+Observation: `<ret> | <store>[ | <store>] | cb [id:state,...]`,
+<store> = atp gtp nadh debt consumed regenerated ops failed ntx state maxAtp maxGtp maxNadh.
 """
 from __future__ import annotations
 
@@ -16,6 +18,30 @@ CURS = ["atp", "gtp", "nadh"]
 RATES = [(1, 10), (1, 10), (1, 4), (1, 2), (1, 1), (0, 1), (2, 1), (1, 8)]
 THRESH = [Fraction(1, 10), Fraction(3, 10), Fraction(9, 10)]
 INFLOW = ("regen", "rst")
+STATES = ["normal", "conserving", "starving", "feasting", "dormant"]
+EXC = [RuntimeError, ValueError, KeyError]
+
+
+class _Observer:
+    """scripted on_state_change callback: logs every call, raises per script (exceptions with empty messages too)"""
+
+    def __init__(self, sid, script, log):
+        self.sid, self.script, self.log, self.count = sid, script, log, 0
+
+    def __call__(self, state):
+        self.count += 1
+        sc = self.script
+        exc = None
+        if sc[0] == "nth" and self.count == int(sc[1]):
+            exc = int(sc[2])
+        elif sc[0] == "state" and state.value == sc[1]:
+            exc = int(sc[2])
+        elif sc[0] == "always":
+            exc = int(sc[1])
+        self.log.append((self.sid, state.value, exc))
+        if exc is not None:
+            cls = EXC[exc] if exc < len(EXC) else Exception
+            raise cls() if exc != 2 else cls("k")
 
 
 def _isnat(tok: str) -> bool:
@@ -34,10 +60,13 @@ class C04(Prop):
         [f"consume:{b}:{c}" for c in CURS for b in ("gated-starving", "gated-dormant", "direct", "debt", "refused")]
         + ["consume:topup:atp", "consume:topup-short>debt:atp", "consume:topup-short>refused:atp",
            "regen:pay", "regen:nopay", "regen:clamp", "regen:fit", "transfer:ok", "transfer:short", "transfer:self",
-           "convert:pos", "convert:zero", "convert:neg", "dorm", "wake", "interest:pos", "interest:zero", "rst"])
+           "convert:pos", "convert:zero", "convert:neg", "dorm", "wake", "interest:pos", "interest:zero", "rst",
+           "cb:called", "cb:raised"])
     assumptions = [
         "amounts, costs, priorities and configuration values are non-negative Python ints (the property's quantifier)",
-        "silent=True, regeneration_rate=0 (no background thread), on_state_change=None",
+        "silent=True, regeneration_rate=0 (no background thread: it would be another actor calling regenerate, see C05)",
+        "on_state_change observers return or raise and do not call back into the store (scripted: raise at the k-th "
+        "call / on a given state / always; three exception classes, empty messages)",
         "debt_interest is 0.1 or a dyadic rational: on these int(debt*rate) equals floor(debt*num/den) "
         "(checked numerically at start-up, never an alarm)",
         "the metabolic-state classifier is opaque in every theorem; the driver computes it with IEEE doubles exactly "
@@ -136,6 +165,8 @@ class C04(Prop):
         if op == "new":
             stores.append(self._mk(line))
             return len(stores) - 1, []
+        if op == "obs":
+            return None, []
         i = int(t[1])
         s = stores[i]
         if op == "consume":
@@ -173,6 +204,22 @@ class C04(Prop):
             lines = [self._new_line(rng, big), self._new_line(rng, big)]
             stores = [self._mk(lines[0]), self._mk(lines[1])]
             no_inflow = rng.random() < 0.4
+            with_obs = rng.random() < 0.3
+
+            def obs_line():
+                i = rng.choice([0, 0, 1])
+                kind = rng.choice(["nth", "nth", "state", "state", "always", "none"])
+                if kind == "nth":
+                    return f"obs {i} nth {rng.choice([1, 1, 2, 3, 5])} {rng.choice([0, 1, 2])}"
+                if kind == "state":
+                    return f"obs {i} state {rng.choice(STATES[:4])} {rng.choice([0, 1, 2])}"
+                if kind == "always":
+                    return f"obs {i} always {rng.choice([0, 1, 2])}"
+                return f"obs {i} none"
+            if with_obs:
+                lines.append(obs_line())
+                if rng.random() < 0.4:
+                    lines.append(obs_line())
             mix = ["consume"] * 6 + ["transfer"] * 2 + ["convert", "dorm", "wake", "interest", "interest"]
             if not no_inflow:
                 mix += ["regen"] * 3 + ["rst"]
@@ -208,6 +255,8 @@ class C04(Prop):
                     line = f"convert {i} {rng.choice([0, 1, 2, 5, 100, s.nadh, s.nadh + 1])}"
                 elif op == "new" or (op == "dorm" and rng.random() < 0.03 and len(stores) < 4):
                     line = self._new_line(rng)
+                elif with_obs and op == "wake" and rng.random() < 0.3:
+                    line = obs_line()
                 else:
                     line = f"{op} {i}"
                 lines.append(line)
@@ -219,9 +268,11 @@ class C04(Prop):
             if kind < 0.03:   # malformed stream: unknown ops, wrong arity, non-numeric / negative tokens, missing store
                 bad = rng.choice(["bogus 0", "consume 0 x atp 1 0", "consume 0 -5 atp 1 0", "consume 9 1 atp 0 0",
                                   "regen 0 1 xyz", "transfer 0 7 1 atp", "consume 0 1 atp", "rst", "new 1 2 3",
-                                  "convert 0 1.5", "interest 12"])
+                                  "convert 0 1.5", "interest 12", "obs 0 nth x 0", "obs 5 always 0", "obs 0 state purple 0",
+                                  "obs 0"])
                 lines.insert(rng.randrange(2, len(lines) + 1), bad)
-            yield {"lines": lines, "note": "random" + (" no-inflow" if no_inflow else "") + (" big" if big else "")}
+            yield {"lines": lines, "note": "random" + (" no-inflow" if no_inflow else "") + (" big" if big else "")
+                   + (" observers" if with_obs else "")}
 
     def exhaustive(self, tier):
         depth = 3 if tier == "quick" else 4
@@ -243,8 +294,22 @@ class C04(Prop):
             {"lines": ["new 20 5 7 30 1 4", "new 0 0 0 0 1 10"] + ["consume 0 1 atp 1 10", "interest 0"] * 70,
              "note": "paying loop with interest: refused once balances + debt limit are used up"},
         ]
+        # observers: every script on the acting store / the peer x all histories of <= 2 (quick) / 3 ops over a
+        # state-changing sub-alphabet
+        obs_scripts = (["obs 0 nth 1 0", "obs 0 nth 2 1", "obs 0 always 2", "obs 1 always 0", "obs 1 nth 1 1"]
+                       + [f"obs 0 state {st} 0" for st in STATES[:4]])
+        sub = ["consume 0 7 atp 1 5", "consume 0 3 atp 0 10", "consume 1 3 atp 1 5", "regen 0 4 atp", "regen 1 2 atp",
+               "transfer 0 1 2 atp", "transfer 1 0 3 atp", "dorm 0", "wake 0", "rst 0"]
+        obs_cases = []
+        for cfg in configs:
+            for sc in obs_scripts:
+                for k in range(1, depth):
+                    for ops in itertools.product(sub, repeat=k):
+                        obs_cases.append({"lines": list(cfg) + [sc] + list(ops), "note": f"observer {sc}, depth {k}"})
         return [{"name": f"all histories of <= {depth} ops over a 13-op alphabet on 3 two-store configurations",
                  "cases": cases},
+                {"name": f"9 observer scripts x all histories of <= {depth - 1} ops over a 10-op alphabet on 3 configurations",
+                 "cases": obs_cases},
                 {"name": "two long fixed histories (transaction-log cap, paying loop)", "cases": long_cases}]
 
     # --- implementation -----------------------------------------------------------------------------------
@@ -253,7 +318,8 @@ class C04(Prop):
         return " ".join(str(x) for x in [
             s.get_balance(self.m.EnergyType.ATP), s.get_balance(self.m.EnergyType.GTP),
             s.get_balance(self.m.EnergyType.NADH), s.get_debt(), st["total_consumed"], st["total_regenerated"],
-            st["operations_count"], st["failed_operations"], s.get_report().transactions_count, s.get_state().value])
+            st["operations_count"], st["failed_operations"], s.get_report().transactions_count, s.get_state().value,
+            st["max_atp"], st["max_gtp"], st["max_nadh"]])
 
     @staticmethod
     def _show_ret(r):
@@ -274,6 +340,13 @@ class C04(Prop):
             return False
         if t[0] == "new":
             return len(t) == 7 and all(_isnat(x) for x in t[1:])
+        if t[0] == "obs":
+            if len(t) < 3 or not _isnat(t[1]):
+                return False
+            r = t[2:]
+            return (r == ["none"] or (len(r) == 3 and r[0] == "nth" and _isnat(r[1]) and _isnat(r[2]))
+                    or (len(r) == 3 and r[0] == "state" and r[1] in STATES and _isnat(r[2]))
+                    or (len(r) == 2 and r[0] == "always" and _isnat(r[1])))
         if t[0] not in self.ARITY or len(t) != self.ARITY[t[0]]:
             return False
         curpos = {"consume": 3, "regen": 3, "transfer": 4}.get(t[0])
@@ -289,8 +362,11 @@ class C04(Prop):
         self._ensure_fcheck()
         stores = []
         obs = []
+        cblog = []
+        extra = []
         lines = case["lines"]
         for idx, line in enumerate(lines):
+            extra.append(None)
             t = line.split()
             if not self._wellformed(t):
                 obs.append("bad-op")
@@ -302,10 +378,19 @@ class C04(Prop):
                 stores.append(self._mk(line))
                 obs.append(f"ok {len(stores) - 1}")
                 continue
+            if t[0] == "obs":
+                i = int(t[1])
+                if i >= len(stores):
+                    obs.append("no-such-store")
+                else:
+                    stores[i].on_state_change = None if t[2] == "none" else _Observer(i, t[2:], cblog)
+                    obs.append("ok")
+                continue
+            del cblog[:]
             ids = [int(t[1])] + ([int(t[2])] if t[0] == "transfer" else [])
             if any(i >= len(stores) for i in ids):
                 obs.append("no-such-store" + "".join(" | " + (self._show_store(stores[i]) if i < len(stores) else "-")
-                                                     for i in ids))
+                                                     for i in ids) + " | cb []")
                 continue
             try:
                 r, _ = self._apply(stores, line)
@@ -317,8 +402,10 @@ class C04(Prop):
                 self.float_truncated += 1
                 del lines[idx:]
                 break
-            obs.append(ret + "".join(" | " + self._show_store(stores[i]) for i in ids))
-        return obs, None
+            extra[idx] = [EXC[c[2]].__name__ if c[2] < len(EXC) else "Exception" for c in cblog if c[2] is not None]
+            obs.append(ret + "".join(" | " + self._show_store(stores[i]) for i in ids)
+                       + " | cb [" + ",".join(f"{c[0]}:{c[1]}" for c in cblog) + "]")
+        return obs, extra
 
     # --- oracle: the property text evaluated on what the real code did ---------------------------------------
     def oracle(self, case, obs, extra):
@@ -340,6 +427,8 @@ class C04(Prop):
             t = line.split()
             if o == "bad-op" or o.startswith("no-such-store"):
                 continue
+            if t[0] == "obs":
+                continue
             if t[0] == "new":
                 a, g, n, md = int(t[1]), int(t[2]), int(t[3]), int(t[4])
                 cfg.append({"cap": [a, g, n], "max_debt": md, "accrued": 0})
@@ -348,6 +437,9 @@ class C04(Prop):
                 continue
             parts = [x.strip() for x in o.split("|")]
             ret = parts[0]
+            if parts[-1].startswith("cb"):
+                parts = parts[:-1]
+            raised_by_observer = (extra[idx] or []) if extra else []
             ids = [int(t[1])] + ([int(t[2])] if t[0] == "transfer" else [])
             now = {}
             try:
@@ -357,8 +449,8 @@ class C04(Prop):
                 out.append(Violation("observations_are_integers", "integer balances", o, idx))
                 break
             before = {i: prev[i] for i in ids}
-            # No operation raises.
-            if ret.startswith("raise:"):
+            # No operation raises (an exception that the on_state_change observer itself raised is the observer's).
+            if ret.startswith("raise:") and ret[6:] not in raised_by_observer:
                 out.append(Violation("no_operation_raises", "a normal return", ret, idx))
             # every balance stays >= 0
             for i, p in now.items():
@@ -393,6 +485,10 @@ class C04(Prop):
                         out.append(Violation("audit_counter_exact", f"total_consumed {b0[4]}", str(n0[4]), idx))
                 elif not ret.startswith("raise:"):
                     out.append(Violation("consume_returns_bool", "True/False", ret, idx))
+                elif not (0 <= d <= cost):
+                    # interrupted by the observer: nothing may be created and no more than the cost removed
+                    out.append(Violation("interrupted_spend_removes_at_most_cost", f"0 <= net worth removed <= {cost}",
+                                         f"{d}: {b0} -> {n0}", idx))
             elif t[0] in ("regen", "transfer"):
                 # regeneration (also the deposit half of a transfer) never lifts a balance above its capacity
                 for i, p in now.items():
